@@ -258,3 +258,18 @@ Theorem C03_frame_any_position : forall d b b',
   exists m, dns_write d = Ok m /\ w_live b' = w_live b ++ be16b (Z.of_nat (length m)) ++ m.
 Proof. exact frame_any_position. Qed.
 Print Assumptions C03_frame_any_position.
+
+(* LEGACY QUERY BUILDERS for a name in ANY valid presentation text (trailing dot, escapes): what
+   ares_create_query / ares_mkquery return parses back to the record ares_dns_record_create_query()
+   built, with the name in canonical form; when the name already is canonical, serialising the parsed
+   record again gives the same octets.  A corollary of C03_roundtrip: the record the builder creates is
+   well formed whenever ares_split_dns_name accepts the name as a hostname. *)
+Theorem C03_query_builders : forall name cls type id rd udp bs,
+  owner_wf name -> 0 <= type < 65536 ->
+  create_query wfixed name cls type id rd udp = Ok bs ->
+  exists d d',
+    record_create_query name cls type (Z.land id 65535) (if rd =? 0 then 0 else ARES_FLAG_RD) (udp mod 2 ^ 64) = Ok d /\
+    dns_parse bs 0 = Ok d' /\ norm_parsed d' = norm_parsed (canon_rec d) /\
+    (Write_enc.canon name = name -> dns_write d' = Ok bs).
+Proof. exact query_builders_gen. Qed.
+Print Assumptions C03_query_builders.
